@@ -83,7 +83,13 @@ RESIDUES = [
     # a neon atom (residue NE, atom NE, element Ne) and an arginine with its N-epsilon (NE) and CZ
     (3, "", "NE", 204, "ion", None, [("NE", "Ne", "-")]),
     (4, "SC", "ARG", 5, "protein", "R", _BB + [("CB", "C", "s"), ("NE", "N", "s"), ("CZ", "C", "s")]),
+    # primed nucleic-acid atom names can only be written as quoted literals that contain the other
+    # quote character ("O5'", "H5''"); a ligand carries the unprimed decoys O5, C3, H5
+    (5, "SN", "DC", 1, "other", None, [("O5'", "O", "-"), ("C5'", "C", "-"), ("C3'", "C", "-"), ("H5'", "H", "-"),
+                                       ("H5''", "H", "-")]),
+    (5, "SN", "LIG", 2, "other", None, [("O5", "O", "-"), ("C3", "C", "-"), ("H5", "H", "-")]),
 ]
+_OTHER_BONDS = {"DC": [("O5'", "C5'"), ("C5'", "H5'"), ("C5'", "H5''"), ("C5'", "C3'")], "LIG": [("C3", "O5"), ("C3", "H5")]}
 # standard atomic weights to 3-4 figures (CRC handbook); thresholds used by the generator stay
 # >= 0.4 away from every one of them, so the 4th figure never matters
 MASS = {"H": 1.008, "C": 12.011, "N": 14.007, "O": 15.999, "S": 32.06, "Na": 22.990, "Cl": 35.45, "Ca": 40.078,
@@ -121,6 +127,8 @@ def atom_table():
             prev_c[chain] = local["C"]
         elif kind == "water":
             bonds += [(first, first + 1), (first, first + 2)]
+        elif resname in _OTHER_BONDS:
+            bonds += [(local[a], local[b]) for a, b in _OTHER_BONDS[resname]]
     for a, b in bonds:
         atoms[a]["n_bonds"] += 1
         atoms[b]["n_bonds"] += 1
@@ -390,7 +398,7 @@ SYM_LOOSE = {"<", "<=", "==", ">", ">="}          # every symbolic comparison ex
 WORD_CMP = {"eq", "ne", "lt", "le", "gt", "ge"}
 HAZARD_ORDER = ["paren-depth>=3", "regex-under-connective", "not-before-infix-comparison",
                 "&&-next-to-symbolic-comparison", "and-next-to-word-comparison",
-                "regex-on-valueless-attribute", "operator-like-literal"]
+                "regex-on-valueless-attribute", "operator-like-literal", "quote-inside-literal"]
 _OPWORDS = {"and", "or", "not", "to", "eq", "ne", "lt", "le", "gt", "ge"}
 
 
@@ -464,6 +472,11 @@ def hazards(tree, s, atoms):
         elif k == "regex":
             if any(a[ALIAS[n[1]]] is None for a in atoms):
                 hz.add("regex-on-valueless-attribute")
+        if k in ("cmp", "rcmp", "impl", "list", "regex"):
+            for part in n[1:]:
+                for lit in (part if isinstance(part, tuple) and part and isinstance(part[0], tuple) else (part,)):
+                    if isinstance(lit, tuple) and len(lit) == 3 and lit[0] == "str" and ("'" in lit[1] or '"' in lit[1]):
+                        hz.add("quote-inside-literal")
         if k in ("cmp", "rcmp", "impl", "list", "range"):
             for part in n[1:]:
                 for lit in (part if isinstance(part, tuple) and part and isinstance(part[0], tuple) else (part,)):
@@ -487,6 +500,8 @@ def first_hazard(hz):
 def table_from_topology(top):
     """Walk chains -> residues -> atoms -> bonds of an md.Topology (trusted input, attribute reads
     only) and derive the truth value of every keyword from names with the hand-written tables.
+    `index` is the atom's .index attribute (the documented meaning of the keyword), the table is in
+    traversal order.
     -> (live, alt, stale, live_bonds): `live` counts for n_bonds only bonds whose two atoms are both still in
     the topology, `alt` also counts bonds to deleted atoms (the documentation does not say which);
     `stale` lists atoms whose .index attribute differs from their position in the walk."""
@@ -501,7 +516,7 @@ def table_from_topology(top):
                     stale.append((pos, at.index, at.name))
                 sym = at.element.symbol
                 live.append({
-                    "index": pos, "name": at.name, "type": sym, "mass": MASS[sym], "n_bonds": 0,
+                    "index": at.index, "name": at.name, "type": sym, "mass": MASS[sym], "n_bonds": 0,
                     "residue": res.resSeq, "resid": resid, "resname": res.name,
                     "rescode": PROTEIN_CODE.get(res.name), "chainid": ci, "segment_id": res.segment_id,
                     "all": True, "none": False, "protein": prot, "water": res.name in WATER_NAMES,
@@ -526,16 +541,28 @@ def table_from_topology(top):
 
 
 def build_copy(top):
-    """A new md.Topology with the same chains/residues/atoms/live bonds, built only with add_* calls."""
+    """A new md.Topology with the same chains/residues/atoms(.index)/live bonds, built from scratch
+    through the public API: residues first, then the atoms in increasing .index order, each put at
+    its place inside its residue (for a topology whose traversal order is the index order this is
+    plain sequential construction)."""
     import mdtraj as md
     new = md.Topology()
-    handles = []
+    todo = []          # (atom.index, residue handle, position inside the residue, atom, traversal position)
+    pos = 0
     for ch in top.chains:
         c = new.add_chain()
         for res in ch.residues:
             r = new.add_residue(res.name, c, resSeq=res.resSeq, segment_id=res.segment_id)
-            for at in res.atoms:
-                handles.append(new.add_atom(at.name, md.element.get_by_symbol(at.element.symbol), r))
+            for k, at in enumerate(res.atoms):
+                todo.append((at.index, r, k, at, pos))
+                pos += 1
+    handles = {}
+    placed = {}        # id(residue handle) -> sorted positions already placed
+    for _idx, r, k, at, p in sorted(todo, key=lambda t: t[0]):
+        done = placed.setdefault(id(r), [])
+        rindex = sum(1 for x in done if x < k)
+        done.append(k)
+        handles[p] = new.insert_atom(at.name, md.element.get_by_symbol(at.element.symbol), r, rindex=rindex)
     _live, _alt, _stale, live_bonds = table_from_topology(top)
     for i, j in live_bonds:
         new.add_bond(handles[i], handles[j])
